@@ -22,7 +22,7 @@ META = {
             "term, different NumOps instance' argument; hand transcription coq/C12/PidDefs.v validated bit for bit on the "
             "generated histories only. 'State stays finite' is proved as definedness over R plus the NaN-to-outmin behaviour of "
             "A_SAT; overflow to infinity for huge magnitudes is excluded by the property's precondition and not modelled.",
-    "technique": "Rocq proof over R (induction over histories, coupling invariant, nra/lra case analysis of the clamp) + bit-exact primitive-float model vs C correspondence",
+    "technique": "Rocq proof over R (induction over histories, coupling invariant, nra/lra case analysis of the clamp) + model regenerated from src/pid*.c by a translator and re-tied by conversion on every run + bit-exact primitive-float model vs C correspondence",
 }
 
 H = vlib.VERIF / "harness" / "C12"
@@ -157,6 +157,9 @@ def oracle(meta, out, peer=None):
 
 def run(ctx):
     ctx.prove()
+    # second tie: the model is REGENERATED from the current sources by the translator and re-tied to the proved model
+    ctx.translate_and_tie([("src/pid.c", ["a_pid_run_", "a_pid_pos_", "a_pid_inc_", "a_pid_zero"]),
+                           ("src/pid_neuro.c", ["a_pid_neuro_inc_"])], "GenPid", H / "TiePid.v")
     ctx.assumptions += ["the fuzzy-tuned controller is modelled and tied in C13 (it calls these step functions after a_pid_fuzzy_out_)",
                         "C built with gcc -O2 -ffp-contract=off"]
     cbin = ctx.cc("drv", [H / "drv.c"], repo_srcs=["pid.c", "pid_neuro.c", "a.c"], mode="num")
